@@ -224,8 +224,12 @@ def reviewed(m, L, s):
     b = s.body
     fn = b.id
     prod = s.detail.split('#')[0]
+    def owner(x):
+        # closures and the function they are written in are one review unit (a closure turned into a loop, or the
+        # reverse, keeps the site under the same entry)
+        return x.split('::{closure')[0]
     for e in reviewed_table():
-        if fn.endswith(e['fn']) and s.what == e['what'] and prod == e.get('producer', prod):
+        if owner(fn).endswith(owner(e['fn'])) and s.what == e['what'] and prod == e.get('producer', prod):
             cond = e.get('side_condition')
             if cond:
                 ok, why = SIDE_CONDITIONS[cond](m)
